@@ -424,5 +424,13 @@ def r14_11(ctx):
                  "loaded / saved, and `save: null` goes to the previous file", f.loc(st)) if dep or not src.startswith("req[") else ctx.ok(construct, f.loc(st)))
 
 
+def r14_12(ctx):
+    """R14.12 a value the client was told is a value the saved file carries: the string branch of Symbol.str_value takes the user value
+    only under the visibility (C01 R01.1) - a hidden option that keeps its user value is reported with it and saved without it."""
+    from . import c01
+    from .common import delegate
+    delegate(ctx, c01.r01_1, lambda c: 'Symbol.str_value' in c)
+
+
 def rules():
-    return [("R14.11", r14_11, 2), ("R14.10", r14_10, 1), ("R14.9", r14_9, 1), ("R14.1", r14_1, 9), ("R14.2", r14_2, 5), ("R14.3", r14_3, 3), ("R14.4", r14_4, 20), ("R14.5", r14_5, 10), ("R14.6", r14_6, 5), ("R14.7", r14_7, 1), ("R14.8", r14_8, 6)]
+    return [("R14.12", r14_12, 3), ("R14.11", r14_11, 2), ("R14.10", r14_10, 1), ("R14.9", r14_9, 1), ("R14.1", r14_1, 9), ("R14.2", r14_2, 5), ("R14.3", r14_3, 3), ("R14.4", r14_4, 20), ("R14.5", r14_5, 10), ("R14.6", r14_6, 5), ("R14.7", r14_7, 1), ("R14.8", r14_8, 6)]
